@@ -168,6 +168,18 @@ func (b *builder) add(event Event) {
 	}
 }
 
+// whileOpen runs action with the builder's lock held, unless the trace is
+// already complete. Data that a completed trace points to must no longer be
+// modified: the collector may be reading it.
+func (b *builder) whileOpen(action func()) {
+	b.mu.Lock()
+	defer b.mu.Unlock()
+	if b.trace.TestName == "" {
+		return
+	}
+	action()
+}
+
 func (b *builder) getAndClearLocked() Trace {
 	trace := b.trace
 	b.trace = Trace{} // reset; subsequent calls to add or build ignored
